@@ -93,7 +93,7 @@ func c18AdminServe(h http.Handler, req *http.Request) (rr *httptest.ResponseReco
 
 // fetch every page of the admin port and tokenise it; hostile != "" additionally puts the payload into the admin
 // request itself (query string, path below a subtree route, User-Agent)
-func c18AdminSweep(res *verifResult, variants []c18AdminVariant, stage, hostile string) {
+func c18AdminSweep(res *verifResult, variants []c18AdminVariant, stage, hostile, lastPayload string) {
 	for _, v := range variants {
 		for _, route := range verifAdminRouteTable() {
 			targets := []string{route.Path}
@@ -128,7 +128,7 @@ func c18AdminSweep(res *verifResult, variants []c18AdminVariant, stage, hostile 
 				if len(problems) > 0 {
 					res.hit(verifHit{Key: "C18:markup:admin:" + route.Path, Oracle: "request-controlled text became an element, attribute or script content of a page of the admin port",
 						What: fmt.Sprintf("admin port (%s) GET %s after %s: status %d, Content-Type %q: %s", v.name, c18Truncate(target, 120), stage, rr.Code, rr.Header().Get("Content-Type"), strings.Join(problems, "; ")),
-						Case: map[string]interface{}{"admin_page": route.Path, "handler": route.Handler, "variant": v.name, "after": stage, "admin_request": target}, Observed: problems})
+						Case: map[string]interface{}{"admin_page": route.Path, "handler": route.Handler, "variant": v.name, "after": stage, "admin_request": target, "payload_of_the_preceding_requests": lastPayload}, Observed: problems})
 				}
 			}
 		}
